@@ -1043,6 +1043,14 @@ impl Visitor for ScopeVisitor {
                 .bytes(),
         );
 
+        // The three control expressions are evaluated before the loop variable exists
+        self.read_expression(numeric_for.start());
+        self.read_expression(numeric_for.end());
+
+        if let Some(step) = numeric_for.step() {
+            self.read_expression(step);
+        }
+
         self.open_scope(numeric_for);
         self.define_name(numeric_for.index_variable(), variable_range);
 
@@ -1050,13 +1058,6 @@ impl Visitor for ScopeVisitor {
             numeric_for.index_variable(),
             Some(range(numeric_for.start())),
         );
-
-        self.read_expression(numeric_for.start());
-        self.read_expression(numeric_for.end());
-
-        if let Some(step) = numeric_for.step() {
-            self.read_expression(step);
-        }
 
         self.open_scope(numeric_for.block());
     }
